@@ -17,7 +17,9 @@ Record snap := {
   sn_ctx : list Z;             (* per stream: 0 no handler start reported, 1 ctx live, 2 cancelled *)
   sn_started : list Z          (* handler starts so far: stream, peer id, address, role, ... *)
 }.
-Record ostep := { o_ev : event; o_ret : Z; o_panic : bool; o_snap : snap }.
+(* [o_seen = false]: the state right after this event could not be observed (the event happened
+   inside another call, see the driver's close-during-enrol class); its snapshot is ignored *)
+Record ostep := { o_ev : event; o_ret : Z; o_panic : bool; o_seen : bool; o_snap : snap }.
 Record case := { id : N; c_np : N; c_nc : N; c_na : N; c_ns : N; c_evs : list ostep }.
 
 Fixpoint zlist_eqb (a b : list Z) : bool :=
@@ -85,7 +87,7 @@ Fixpoint agree (np na ns : N) (r : reg) (l : list ostep) : bool :=
       let r' := step r (o_ev o) in
       (o_ret o =? ret_of r (o_ev o)) &&
       Bool.eqb (o_panic o) (negb (panicked r) && panicked r') &&
-      snap_eqb (o_snap o) (snap_of np na ns r') &&
+      (negb (o_seen o) || snap_eqb (o_snap o) (snap_of np na ns r')) &&
       agree np na ns (if o_panic o then
                         (* a recovered panic is not sticky in the implementation *)
                         {| overlays := overlays r'; underlays := underlays r'; conns := conns r';
@@ -114,9 +116,10 @@ Definition maps_agree (np na : N) (sn : snap) : bool :=
                                              | a' :: _ => a' =? Z.of_N a | [] => false end
                     end) (upto na).
 
-(* registered exactly while some connection enrolled open has not been reported closed *)
+(* registered exactly while some connection enrolled open has not been reported closed (neither
+   since nor, against the library's order, before) *)
 Definition spec_registered (nc : N) (hist : list event) (p : pid) : bool :=
-  existsb (fun k => open_enrolled hist (p, k)) (upto nc).
+  existsb (fun k => truly_open hist (p, k)) (upto nc).
 Definition check_registered (np nc : N) (hist : list event) (sn : snap) : option string :=
   fold_right (fun p acc =>
     match reg_in sn p, spec_registered nc hist p with
@@ -181,7 +184,7 @@ Definition first_some (a b : option string) : option string :=
   match a with Some _ => a | None => b end.
 Definition guard (b : bool) (k : string) : option string := if b then None else Some k.
 
-Fixpoint check_from (np nc na ns : N) (hist : list event) (tracked_in : list (sid * bool)) (prev : snap)
+Fixpoint check_from (np nc na ns : N) (hist : list event) (tracked_in : list (sid * bool)) (blind : bool) (prev : snap)
   (l : list ostep) : option string :=
   match l with
   | [] => None
@@ -199,6 +202,14 @@ Fixpoint check_from (np nc na ns : N) (hist : list event) (tracked_in : list (si
           | _ => tracked_in
           end in
         let here :=
+          if negb (o_seen o) then guard (negb (o_panic o)) "panic" else
+          if blind then
+            (* the previous state was not observed: only the clauses that need no predecessor *)
+            first_some (guard (negb (o_panic o)) "panic")
+            (first_some (guard (maps_agree np na sn) "maps-disagree")
+            (first_some (check_registered np nc hist' sn)
+                        (guard (check_ctx ns hist' sn) "ctx-not-cancelled")))
+          else
           first_some (guard (negb (o_panic o)) "panic")
           (first_some (guard (maps_agree np na sn) "maps-disagree")
           (first_some (check_registered np nc hist' sn)
@@ -226,13 +237,14 @@ Fixpoint check_from (np nc na ns : N) (hist : list event) (tracked_in : list (si
                            then guard (cell (sn_sw sn) s =? 4) "handler-unregistered" else None
                        | _ => None end)
                       (guard (check_ctx ns hist' sn) "ctx-not-cancelled"))))))) in
-        first_some here (check_from np nc na ns hist' tracked_in' sn rest)
+        first_some here (if o_seen o then check_from np nc na ns hist' tracked_in' false sn rest
+                         else check_from np nc na ns hist' tracked_in' true prev rest)
   end.
 
 Definition empty_snap (np na ns : N) : snap := snap_of np na ns init.
 
 Definition violation (c : case) : option string :=
-  check_from (c_np c) (c_nc c) (c_na c) (c_ns c) [] [] (empty_snap (c_np c) (c_na c) (c_ns c)) (c_evs c).
+  check_from (c_np c) (c_nc c) (c_na c) (c_ns c) [] [] false (empty_snap (c_np c) (c_na c) (c_ns c)) (c_evs c).
 Definition violations (cs : list case) : list (N * string) :=
   flat_map (fun c => match violation c with Some k => [(id c, k)] | None => [] end) cs.
 
